@@ -825,3 +825,46 @@ impl<M: Math, T: Transformation<M>> Hamiltonian<M> for TransformedHamiltonian<M,
         Ok(())
     }
 }
+
+/// Plain-data copy of a phase-space point, for the verification harness.
+#[cfg(nuts_rs_verif)]
+#[derive(Debug, Clone)]
+pub struct VerifPoint {
+    pub untransformed_position: Vec<f64>,
+    pub untransformed_gradient: Vec<f64>,
+    pub transformed_position: Vec<f64>,
+    pub transformed_gradient: Vec<f64>,
+    pub velocity: Vec<f64>,
+    pub index_in_trajectory: i64,
+    pub logp: f64,
+    pub logdet: f64,
+    pub kinetic_energy: f64,
+    pub initial_energy: f64,
+    pub transform_id: i64,
+    pub step_size_factor: f64,
+}
+
+#[cfg(nuts_rs_verif)]
+impl<M: Math> TransformedPoint<M> {
+    pub fn verif_data(&self, math: &mut M) -> VerifPoint {
+        VerifPoint {
+            untransformed_position: math.box_array(&self.untransformed_position).into_vec(),
+            untransformed_gradient: math.box_array(&self.untransformed_gradient).into_vec(),
+            transformed_position: math.box_array(&self.transformed_position).into_vec(),
+            transformed_gradient: math.box_array(&self.transformed_gradient).into_vec(),
+            velocity: math.box_array(&self.velocity).into_vec(),
+            index_in_trajectory: self.index_in_trajectory,
+            logp: self.logp,
+            logdet: self.logdet,
+            kinetic_energy: self.kinetic_energy,
+            initial_energy: self.initial_energy,
+            transform_id: self.transform_id,
+            step_size_factor: self.step_size_factor,
+        }
+    }
+
+    /// Overwrite the velocity (and recompute nothing else).
+    pub fn verif_set_velocity(&mut self, math: &mut M, velocity: &[f64]) {
+        math.read_from_slice(&mut self.velocity, velocity);
+    }
+}
